@@ -18,7 +18,8 @@ PKGS = ["./cmd/instance"]
 
 # deviation -> witness classes the model must exhibit with it (sequential configuration)
 DEV_SEQ = {"AliasDefaults": {"cache", "history"}, "CollideEither": {"nondeterministic"}, "StripInPlace": {"argument"},
-           "StripRestore": {"argument"}, "DirtyScratch": {"history"}, "EnumEarlyReturn": {"nondeterministic"}}
+           "StripRestore": {"argument"}, "DirtyScratch": {"history"}, "EnumEarlyReturn": {"nondeterministic"},
+           "StaleMemo": {"history", "nondeterministic"}, "SharedError": {"history"}}
 
 
 def hist_cases(recs, reps, targeted=False):
@@ -76,9 +77,19 @@ def run(ctx):
     ctx.log("InstanceMC (C12):", r, "histories:", len(recs))
     if not recs:
         raise common.Infra("InstanceMC exported no histories")
-    ctx.exhaustive = True
-    targeted = hist_cases([w for d in sorted(wit) for w in wit[d]], reps, targeted=True)
+    ctx.exhaustive = thorough   # quick samples the longest histories of the unit kinds
+    # per deviation: the shortest witness histories first, at most 60 distinct ones
+    targeted = []
+    for d in sorted(wit):
+        ws = sorted(wit[d], key=lambda w: len(w["calls"]))
+        targeted += hist_cases(ws, reps, targeted=True)[:60]
     generic = hist_cases(recs, reps)
+    if not thorough:
+        # quick: the unit kinds have the most concrete instances; of their 3-call histories a seeded quarter is
+        # replayed (all shorter ones, all targeted ones and - in the thorough tier - all of them are)
+        longest = max(len(c["calls"]) for c in generic)
+        generic = [c for c in generic if not (c["kind"] in ("units", "units0") and len(c["calls"]) == longest
+                                              and int(common.sha([c["ckind"], c["origin"], [x["op"] + x["tok"] for x in c["calls"]], ctx.seed]), 16) % 4)]
     # seeded shuffle: which histories share a worker process (and in which order) varies with the seed, so that
     # state kept outside the instance shows up as different results for one (schema, argument)
     random.Random(ctx.seed).shuffle(generic)
